@@ -2,7 +2,7 @@
    Model: coq/model/Service.v.  Threads = nodes (one per process), any number of them, any
    programs of create / open / open_or_create / drop on ONE service name, any schedule (list of
    thread ids), any timeout budget T; one step = one libc call or one atomic registry operation. *)
-From V Require Import model.Base model.Conc model.Service proofs.ServiceVerifyProofs proofs.ServiceProofs proofs.ServiceRegistryProofs.
+From V Require Import model.Base model.Conc model.Service proofs.ServiceVerifyProofs proofs.ServiceProofs proofs.ServiceRegistryProofs proofs.ServiceAtomicProofs.
 Open Scope N_scope.
 
 (* ---------------------------------------------------------------------------------------------- *)
@@ -178,14 +178,16 @@ Definition td_u64 : tdetail := mkTd 0 1 8 8.
 Definition defs (p : pattern) : list N :=
   match p with PubSub => [2; 8; 2; 0; 2; 1; 20] | Event => [16; 16; 255; 36; 0; 0; 0; 0]
              | ReqRes => [1; 1; 1; 4; 2; 2; 2; 2; 8; 20] | Blackboard => [8; 20] end.
-Definition reqA : req := mkReq PubSub true [Some 1; None; None; None; None; None; Some 2] [td_u64] [] [] [] false.
-Definition reqB : req := mkReq PubSub true [Some 2; None; None; None; None; None; Some 1] [td_u64] [] [] [] false.
-Definition reqU : req := mkReq PubSub true [None; None; None; None; None; None; None] [td_u64] [] [] [] false.
-Definition reqBb : req := mkReq Blackboard true [None; None] [td_u64] [] [] [] false.
-Definition P0 : params := mkP 0 defs true.
-Definition P9 : params := mkP 9 defs true.
+Definition reqA : req := mkReq PubSub true [Some 1; None; None; None; None; None; Some 2] [td_u64] [] [] [] false None.
+Definition reqB : req := mkReq PubSub true [Some 2; None; None; None; None; None; Some 1] [td_u64] [] [] [] false None.
+Definition reqU : req := mkReq PubSub true [None; None; None; None; None; None; None] [td_u64] [] [] [] false None.
+Definition reqBb : req := mkReq Blackboard true [None; None] [td_u64] [] [] [] false None.
+Definition P0 : params := mkP 0 defs true true false.
+Definition P9 : params := mkP 9 defs true true false.
 (* the same without the re-check of the LOCK indicator in acquire() *)
-Definition P9nr : params := mkP 9 defs false.
+Definition P9nr : params := mkP 9 defs false true false.
+(* ... and with create() giving up the ownership of the static config right after unlocking it *)
+Definition P9no : params := mkP 9 defs true false false.
 
 Definition progs2 (a b : list op) (t : nat) : list op := match t with O => a | S O => b | _ => [] end.
 
@@ -370,6 +372,53 @@ Proof.
   rewrite (H P9 multi_progs g0 ls0 1%nat x eq_refl Hr Hx Hd Hl) in Hc. discriminate.
 Qed.
 Print Assumptions c06_live_is_linked_refuted.
+
+(* ---- a failing create leaves nothing behind ---- *)
+(* all interleavings: when the name is linked to an instance that is not completely initialised, that instance's creator is
+   still inside its create call; i.e. a create that has returned an error after create_locked (resource creation failed:
+   blackboard key added twice, Flatbuffer schema not found; dynamic config could not be created) has removed the static
+   config again, the name is free for a new create with other settings *)
+Theorem c06_failed_create_leaves_no_static : forall P progs g ls i x,
+  p_own_static P = true -> reachable (step P) (init progs) (g, ls) ->
+  get_inst g i = Some x -> i_dy x <> DFinal -> creating (at_pc (ls (i_owner x))) <> Some i -> cur g <> Some i.
+Proof. exact failed_create_leaves_no_static. Qed.
+Print Assumptions c06_failed_create_leaves_no_static.
+
+(* blackboard creator that adds the same key twice, then a create with other settings, then an open *)
+Definition reqBbDup : req := mkReq Blackboard true [None; None] [td_u64] [] [] [] false (Some ServiceInCorruptedState).
+Definition reqBb3 : req := mkReq Blackboard true [Some 3; None] [td_u64] [] [] [] false None.
+Definition fail_progs := progs2 [OCreate reqBbDup; OCreate reqBb3] [OOpen reqBb].
+Definition fail_sched : list nat := (repeat 0 16 ++ repeat 1 3 ++ repeat 0 22 ++ repeat 1 24)%nat.
+Definition fail_cfg := fst (run (step P9) fail_sched (init fail_progs)).
+Example c06_failed_create_nonvacuous :
+  rets (snd fail_cfg 0%nat) = [RErr SCreate ServiceInCorruptedState; ROk 1 (mk_cfg (defs Blackboard) reqBb3 KCreate)] /\
+  rets (snd fail_cfg 1%nat) = [RErr SOpen DoesNotExist] /\
+  cur (fst fail_cfg) = Some 1%nat /\ listing (fst fail_cfg) = (1, 1, 1)%nat.
+Proof. vm_compute. repeat split. Qed.
+Print Assumptions c06_failed_create_nonvacuous.
+
+(* without the ownership (seeded variant): the failed create leaves an unlocked, complete static config behind for ever *)
+Definition c06_failed_create_noown_full : Prop :=
+  forall P progs g ls i x, reachable (step P) (init progs) (g, ls) ->
+    get_inst g i = Some x -> i_dy x <> DFinal -> creating (at_pc (ls (i_owner x))) <> Some i -> cur g <> Some i.
+Definition noown_cfg := fst (run (step P9no) (repeat 0 16)%nat (init (progs2 [OCreate reqBbDup] []))).
+Lemma c06_noown_witness :
+  rets (snd noown_cfg 0%nat) = [RErr SCreate ServiceInCorruptedState] /\ at_pc (snd noown_cfg 0%nat) = Idle /\
+  cur (fst noown_cfg) = Some 0%nat /\ does_exist (fst noown_cfg) = true /\
+  exists x, get_inst (fst noown_cfg) 0%nat = Some x /\ i_dy x = DAbsent /\ i_owner x = 0%nat.
+Proof. vm_compute. repeat split. eexists. repeat split. Qed.
+Print Assumptions c06_noown_witness.
+Theorem c06_failed_create_noown_refuted : ~ c06_failed_create_noown_full.
+Proof.
+  intros H.
+  assert (Hr : reachable (step P9no) (init (progs2 [OCreate reqBbDup] [])) (fst noown_cfg, snd noown_cfg)) by (unfold noown_cfg; apply reachable_run_pair).
+  destruct c06_noown_witness as (_ & Hpc & Hc & _ & x & Hx & Hd & Ho).
+  revert Hr Hpc Hc Hx. generalize (fst noown_cfg) as g0, (snd noown_cfg) as ls0. intros g0 ls0 Hr Hpc Hc Hx.
+  apply (H P9no _ g0 ls0 0%nat x Hr Hx); auto.
+  - congruence.
+  - rewrite Ho, Hpc. discriminate.
+Qed.
+Print Assumptions c06_failed_create_noown_refuted.
 
 (* ---- lifetime ---- *)
 Definition quiescent (ls : nat -> lst) : Prop := forall t, at_pc (ls t) = Idle.
